@@ -243,3 +243,4 @@ void c04_rich_val_shards();
 void c04_rich_heap_shards();
 void c04_rich_move_only_shards();
 void c04_poly_shards();
+void c04_refs_shards();
